@@ -550,5 +550,6 @@ func main() {
 		r.Set("urls_hammered_concurrently_first", atomic.LoadInt64(&nConcGroups))
 		r.Set("responses_200", atomic.LoadInt64(&n200))
 		r.Set("responses_404", atomic.LoadInt64(&n404))
+		r.ReportRaces(filepath.Join(base, "race"))
 	})
 }
